@@ -184,17 +184,22 @@ def direct_check(case, obs):
     return []
 
 
+def input_term(yt, yp, r):
+    """one model input: the labels and the oracle rows logged at this update"""
+    orc = []
+    for est, dn, key, sim in [e[:4] for e in r["log"]]:
+        s = "None" if sim is None else "(Some (mkb " + " ".join(G.flt(v) for v in sim) + "))"
+        orc.append(f"({G.flt(est)}, {G.z(dn)}, {G.flt(key)}, {s})")
+    return f"({G.boolc(yt)}, {G.boolc(yp)}, {G.lst(orc)})"
+
+
 def coq_term(case, obs):
     if "__exception__" in obs:
         return "false"
     p = case["params"]
     xs, rows = [], []
     for (yt, yp), r in zip(case["pairs"], obs["rows"]):
-        orc = []
-        for est, dn, key, sim in [e[:4] for e in r["log"]]:
-            s = "None" if sim is None else "(Some (mkb " + " ".join(G.flt(v) for v in sim) + "))"
-            orc.append(f"({G.flt(est)}, {G.z(dn)}, {G.flt(key)}, {s})")
-        xs.append(f"({G.boolc(yt)}, {G.boolc(yp)}, {G.lst(orc)})")
+        xs.append(input_term(yt, yp, r))
         ex = (r["r"] or [None] * 4) + [1.0, None if r["ncache"] is None else float(r["ncache"])]
         rows.append(row_term(r["ds"], r["total"], r["since"], r["recs"], ex))
     tr = G.zlist([RATES.index(t) for t in p["tracked"]])
